@@ -279,6 +279,10 @@ fn single_frame_cases(frames: &[Frame], classes: &[String], rng: &mut Rng, thoro
             }
             push("hdr", vec![Op::Zero { file, off, len: 7 }]);
             push("hdr", vec![Op::Write { file, off, bytes: garbage(rng, 7) }]);
+            // pattern fills (what an erased or unmapped range reads back as on some media)
+            for fill in [0xffu8, 0x01, 0x55] {
+                push("hdr", vec![Op::Write { file, off, bytes: vec![fill; 7] }]);
+            }
             // a shorter / longer declared length
             for new_len in [0u16, 1, (pay as u16).wrapping_sub(1), (pay as u16).wrapping_add(1), 0x7fff, 0xffff] {
                 push("hdr", vec![Op::Write { file, off: off + 4, bytes: new_len.to_le_bytes().to_vec() }]);
@@ -831,6 +835,7 @@ pub fn cmd(args: &Args) {
         let mut lines = assemble(&record, Vec::new());
         let script_arc = Arc::new(script.clone());
         let mut compound_done = 0usize;
+        let mut compound_seen: std::collections::HashSet<(bool, (u64, usize))> = std::collections::HashSet::new();
         let mut groups: BTreeMap<String, usize> = BTreeMap::new();
         let mut group_lines: Vec<Vec<Value>> = Vec::new();
         for case in &cases {
@@ -849,6 +854,67 @@ pub fn cmd(args: &Args) {
                 output_in.add("damage_open_ok", 1);
             } else {
                 output_in.add(&format!("damage_open_{}", recovery.out), 1);
+            }
+            // damage first, then a crash inside a later append (a budget of experiments per script)
+            // decided by observation, not by the kind of damage: the experiment is run whenever the
+            // writer of the reopened log stands IN FRONT OF frames of the image (the damage made the
+            // reader stop early, whatever made it do so); one experiment per resume point and kind
+            // (where the reader stopped: the last seek of open - into_writer positions the writer there)
+            let stop = recovery
+                .io
+                .iter()
+                .rev()
+                .find(|event| event["e"] == "SK")
+                .map(|event| (event["f"].as_u64().unwrap_or(0), event["o"].as_u64().unwrap_or(0) as usize))
+                .unwrap_or((0, 0));
+            let stale_ahead = recovery.out == "ok"
+                && live.iter().any(|frame| frame.frame_type != 0 && (frame.file, frame.off) >= stop);
+            // what the reader met there: an all-zero header is the end-of-log marker (finding D10 when
+            // damage made the reader meet one in front of valid frames: by zeroing a header, or by
+            // altering a length field so that the reader resynchronises on zero bytes); anything else
+            // means the reader took something that is not the marker for the end of the log
+            let at_marker = files
+                .get(&stop.0)
+                .map(|img| img.data.len() >= stop.1 + 7 && img.data[stop.1..stop.1 + 7].iter().all(|byte| *byte == 0))
+                .unwrap_or(false);
+            if dmgcrash && stale_ahead && case.ops.len() == 1 && compound_seen.insert((at_marker, stop)) {
+                let wanted = compound_done < compound_budget;
+                if wanted {
+                    compound_done += 1;
+                    for (k, recovery2, inflight) in crash_in_aimed_append(&script_arc, &files, &live, case_seed, deadline) {
+                        output_in.add("damage_cases", 1);
+                        output_in.add("damage_dmgcrash", 1);
+                        // (the verdict depends on whether the reader stopped at the marker - finding D10 - so
+                        // the two kinds never share a group)
+                        let key2 = format!("dmgcrash|{}|{}", at_marker, group_key("dmgcrash", case.hit, &recovery2));
+                        if groups.contains_key(&key2) {
+                            continue;
+                        }
+                        let mut ops_json: Vec<Value> = case.ops.iter().map(op_json).collect();
+                        ops_json.push(json!({"k": "crashappend", "f": -1, "o": 0, "n": k}));
+                        let dmgkind = if at_marker {
+                            "zeromarker".to_string()
+                        } else {
+                            match &case.ops[0] {
+                                Op::Zero { len, .. } => format!("{} zero-fill of {} bytes", case.cls, len),
+                                Op::Write { bytes, .. } => format!("{} write of {} bytes", case.cls, bytes.len()),
+                                Op::Xor { .. } => format!("{} bit flip", case.cls),
+                                _ => case.cls.to_string(),
+                            }
+                        };
+                        let mut line2 = json!({
+                            "ev": "damage", "cls": "dmgcrash", "ops": ops_json, "dmgkind": dmgkind,
+                            "hit": {"entry": 0, "kind": "none", "q": -1, "first": -1, "n": 0, "step": -1, "ftype": 0},
+                            "n": 1, "out": recovery2.out, "errtext": recovery2.errtext, "accpanic": recovery2.accpanic,
+                            "peak": recovery2.peak, "allocok": 1, "ncont": 0, "inflight": inflight,
+                        });
+                        if recovery2.out == "ok" && recovery2.accpanic == 0 {
+                            line2["st"] = recovery2.st.clone();
+                        }
+                        groups.insert(key2, group_lines.len());
+                        group_lines.push(vec![line2]);
+                    }
+                }
             }
             let key = group_key(case.cls, case.hit, &recovery);
             if let Some(existing) = groups.get(&key) {
@@ -882,52 +948,6 @@ pub fn cmd(args: &Args) {
             group_lines.push(block);
             if recovery.out == "timeout" {
                 break;
-            }
-            // damage first, then a crash inside a later append (a budget of experiments per script;
-            // header damage first: it is what moves the point where the writer resumes)
-            // (the header damage that moves the point where the reader stops or resynchronises: a zeroed
-            // type byte, a zeroed header, an invalid type; plus one checksum case per frame)
-            let moves_the_end = match (case.cls, &case.ops[0]) {
-                ("hdr", Op::Write { bytes, .. }) => bytes.len() == 1 && (bytes[0] == 0 || bytes[0] == 0xff),
-                ("hdr", Op::Zero { len, .. }) => *len == 7,
-                ("crc", Op::Write { .. }) => true,
-                _ => false,
-            };
-            if dmgcrash && recovery.out == "ok" && case.ops.len() == 1 && moves_the_end {
-                let wanted = compound_done < compound_budget;
-                if wanted {
-                    compound_done += 1;
-                    for (k, recovery2, inflight) in crash_in_aimed_append(&script_arc, &files, &live, case_seed, deadline) {
-                        output_in.add("damage_cases", 1);
-                        output_in.add("damage_dmgcrash", 1);
-                        // (the verdict depends on whether the damage was a zeroed header - finding D10 - so
-                        // the two kinds never share a group)
-                        let zeroed_header = matches!(&case.ops[0], Op::Zero { len, .. } if *len == 7 && case.cls == "hdr");
-                        let key2 = format!("dmgcrash|{}|{}", zeroed_header, group_key("dmgcrash", case.hit, &recovery2));
-                        if groups.contains_key(&key2) {
-                            continue;
-                        }
-                        let mut ops_json: Vec<Value> = case.ops.iter().map(op_json).collect();
-                        ops_json.push(json!({"k": "crashappend", "f": -1, "o": 0, "n": k}));
-                        let dmgkind = match &case.ops[0] {
-                            Op::Zero { len, .. } if *len == 7 && case.cls == "hdr" => "zerohdr".to_string(),
-                            Op::Zero { .. } => format!("{} zero-fill", case.cls),
-                            Op::Write { bytes, .. } => format!("{} write of {} bytes", case.cls, bytes.len()),
-                            _ => case.cls.to_string(),
-                        };
-                        let mut line2 = json!({
-                            "ev": "damage", "cls": "dmgcrash", "ops": ops_json, "dmgkind": dmgkind,
-                            "hit": {"entry": 0, "kind": "none", "q": -1, "first": -1, "n": 0, "step": -1, "ftype": 0},
-                            "n": 1, "out": recovery2.out, "errtext": recovery2.errtext, "accpanic": recovery2.accpanic,
-                            "peak": recovery2.peak, "allocok": 1, "ncont": 0, "inflight": inflight,
-                        });
-                        if recovery2.out == "ok" && recovery2.accpanic == 0 {
-                            line2["st"] = recovery2.st.clone();
-                        }
-                        groups.insert(key2, group_lines.len());
-                        group_lines.push(vec![line2]);
-                    }
-                }
             }
         }
         output_in.add("damage_groups", group_lines.len() as u64);
